@@ -11,3 +11,4 @@ INVARIANT Pure
 INVARIANT ManagerSingleAfterSolve
 INVARIANT KernelMatchesSetting
 INVARIANT NumbaFollowsSetting
+PROPERTY WisdomTolerant
